@@ -101,9 +101,10 @@ Definition pparam (f : fname) : stmt :=
     close() (at least once) afterwards. *)
 Definition server_session : stmt :=
   Seq (Call F_trapped_init)
-      (Try (Try (ForLoop (Call F_trapped_next)) [(PStopIteration, Skip)] Skip Skip)
+      (Try (Try (Loop (Seq (Act ServerNext) (Call F_trapped_next))) [(PStopIteration, Skip)] Skip Skip)
            [] Skip
-           (Seq (Call F_trapped_close) (ForLoop (Call F_trapped_close)))).
+           (Seq (Call F_trapped_close)
+                (Try (Loop (Seq (Act ServerCloseAgain) (Call F_trapped_close))) [(PStopIteration, Skip)] Skip Skip))).
 
 Definition run_flow (E : env) (fuel : nat) (s : stmt) (st : state) : outcome * state :=
   exec prog pparam E fuel Skip s st.
